@@ -14,11 +14,13 @@ TReallocEnd == Ev.e = "ReallocEnd" /\ Ev.id \in DOMAIN nnew /\ ReallocEnd(Ev, nn
 TQuery == Ev.e = "Query" /\ Query(Ev) /\ UNCHANGED nnew
 TDump == Ev.e = "Dump" /\ Dump(Ev) /\ UNCHANGED nnew
 TDumpConcurrent == Ev.e = "DumpConcurrent" /\ UNCHANGED <<mvars, nnew>>     \* judged by what happens to memory, not by numbers
+TRenew == /\ Ev.e = "Renew" /\ live = << >> /\ outside = << >> /\ moving = << >>
+          /\ Ev.same = 1 /\ Ev.bytes = 0 /\ Ev.count = 0 /\ UNCHANGED <<mvars, nnew>>
 TUnwrapped == Ev.e = "Unwrapped" /\ Ev.same = 1 /\ UNCHANGED <<mvars, nnew>>
 TDestroyed == Ev.e = "Destroyed" /\ Destroyed(Ev) /\ UNCHANGED nnew
 TEnd == Ev.e = "End" /\ Ev.live = 0 /\ Ev.unjoined = 0 /\ UNCHANGED <<mvars, nnew>>
 TNext == l <= TraceLen /\ l' = l + 1 /\
          (TReset \/ TSetup \/ TAcq \/ TAcqOutside \/ TRelBegin \/ TRelEnd \/ TReallocBegin \/ TReallocEnd \/ TQuery \/ TDump \/ TDumpConcurrent
-            \/ TUnwrapped \/ TDestroyed \/ TEnd)
+            \/ TRenew \/ TUnwrapped \/ TDestroyed \/ TEnd)
 TSpec == (l = 1 /\ live = << >> /\ outside = << >> /\ moving = << >> /\ level = 0 /\ nnew = << >>) /\ [][TNext]_<<mvars, nnew, l>>
 =============================================================================
